@@ -233,6 +233,20 @@ func c17h(c *Ctx) {
 									if n := calleeName(z); strings.HasPrefix(n, "log.Fatal") || n == "os.Exit" || strings.HasPrefix(n, "log.Panic") {
 										handled = true
 									}
+									// a helper of package main that never comes back
+									if g := callee(z); g != nil && g.Pkg != nil && g.Pkg.Pkg.Name() == "main" && len(g.Blocks) > 0 {
+										isExit := func(x ssa.Instruction) bool {
+											cx, ok := x.(ssa.CallInstruction)
+											if !ok {
+												return false
+											}
+											nx := calleeName(cx)
+											return strings.HasPrefix(nx, "log.Fatal") || nx == "os.Exit" || strings.HasPrefix(nx, "log.Panic")
+										}
+										if _, comesBack := existsPath(pathQuery{from: entry(g), avoid: isExit, exitIs: true, target: func(ssa.Instruction) bool { return false }}); !comesBack {
+											handled = true
+										}
+									}
 								case *ssa.Return:
 									if len(z.Results) > 0 && !isNilConst(z.Results[len(z.Results)-1]) {
 										handled = true
